@@ -236,6 +236,22 @@ def gen(tier, seed):
         cid = 'enum' + ';'.join(vid([f.ty for f in v.fields], v.des, targets) for v in vs)
         mods.append(emit(f'm{n:04d}', cid, 'enum', vs, targets)); n += 1
     mods += reference_modules(n)
+    n = len(mods)
+    # a `&'static mut u8` target: the requested impl is `Into<&'static mut u8>` and no other (known finding: today `Into<&'static u8>` is emitted)
+    decl = '''#[derive(Educe)]
+#[educe(Into(&'static mut u8))]
+pub struct Ty(pub &'static mut u8, pub u16);
+'''
+    h = Harness('h_into_mut', unwind=4, covers=['reached'])
+    body = decl + h.attrs() + '''pub fn h_into_mut() {
+    let x = Ty(Sym::sym(), kani::any());
+    let p = &*x.0 as *const u8;
+    let r: &'static mut u8 = Into::into(x);
+    kani::cover!(true, "reached");
+    assert!(r as *mut u8 as *const u8 == p, "Into<&'static mut u8> does not return the designated field");
+}
+'''
+    mods.append(Module(f'm{n:04d}', "struct (&'static mut u8, u16) with target &'static mut u8", body, [h], sample=dict(type_definition=decl), functions=FUNCTIONS, classes=['c10:mut-reference-target']))
     return mods
 
 
